@@ -21,7 +21,7 @@ RULE = ("schemas with nested schemas, config types, lists of schemas / config ty
         "cincoconfig.ValidationError (a ValueError), ref_path == the declared path (a.b[2].c, d[key]) and a message "
         "starting with that path (plus ' (name)' for a friendly name); non-trivial = >= 3 rejections judged over >= 2 "
         "routes; distinct = distinct (schema, probes)")
-REQUIRED = ("rejections_by_validator_callback:fail-empty", "schemas_with_sections_named_like_config_methods", "sections_nested_in_a_section_of_the_same_name", "cases_with_library_warnings_as_errors", "duplicate_key_documents", "moved_object_probes:list-item", "moved_object_probes:section", "schemas_with_premounted_fragments", "object_item_probes", "reordered_list_probes", "pos:dict-key", "rejections_judged", "route:attr", "route:dotted", "route:ctor", "route:load_tree", "route:loads", "pos:nested",
+REQUIRED = ("schemas_with_an_include_field_inside_a_config_type", "schemas_with_sections_created_by_a_deep_dotted_name", "rejections_by_validator_callback:fail-empty", "schemas_with_sections_named_like_config_methods", "sections_nested_in_a_section_of_the_same_name", "cases_with_library_warnings_as_errors", "duplicate_key_documents", "moved_object_probes:list-item", "moved_object_probes:section", "schemas_with_premounted_fragments", "object_item_probes", "reordered_list_probes", "pos:dict-key", "rejections_judged", "route:attr", "route:dotted", "route:ctor", "route:load_tree", "route:loads", "pos:nested",
             "pos:ctype", "pos:list-item", "pos:dict-entry", "pos:list-scalar", "pos:subconfig-slot", "friendly_names_judged",
             "after_prior_load")
 ASSUMPTIONS = ["unknown keys (AttributeError) and non-map top-level documents are not 'a value for a declared field'",
@@ -71,12 +71,41 @@ def generate(rng, ctx):
             if all(ch["key"] != "inc1" for ch in sub["fields"]):
                 sub["fields"].append({"kind": "field", "key": "inc1", "family": "include", "params": {}})
                 incs.append(sub["key"] + ".inc1")
-    # some sub-schemas are reusable fragments: built and used on their own before being mounted
+    # an include field inside a configuration type that is used as a section
+    ctypes = [ch for ch in schema["fields"] if ch["kind"] == "ctype"]
+    if ctypes and rng.random() < 0.6:
+        ct = rng.choice(ctypes)
+        kids = model.fields_of(ct)["fields"]
+        if all(ch["key"] != "inc3" for ch in kids):
+            kids.append({"kind": "field", "key": "inc3", "family": "include", "params": {}})
+            incs.append(ct["key"] + ".inc3")
+            schema["include_in_ctype"] = True
+    # a chain of sections that is never declared by itself: its first leaf is declared as schema["dz.dy.dd"] = field, which
+    # creates both sections on the way (typed dict and include leaves report errors by the schema's static path)
+    if rng.random() < 0.35 and all(ch["key"] != "dz" for ch in schema["fields"]):
+        S = {"kind": "field", "family": "str", "params": {}}
+        leaves = [{"kind": "field", "key": "dd", "family": "dict", "params": {}, "keyf": dict(S),
+                   "valf": {"kind": "field", "family": "int", "params": {}}},
+                  {"kind": "field", "key": "n", "family": "int", "params": {}}]
+        if rng.random() < 0.5:
+            leaves.append({"kind": "field", "key": "inc2", "family": "include", "params": {}})
+            incs.append("dz.dy.inc2")
+        if rng.random() < 0.5:
+            leaves.reverse()
+        schema["fields"].append({"kind": "schema", "key": "dz", "style": "dotted", "fields": [
+            {"kind": "schema", "key": "dy", "style": "dotted", "fields": leaves}]})
+        schema["deep_dotted"] = True
+    # some sub-schemas are reusable fragments: built and used on their own before being mounted; others come into being
+    # by attribute access, by item access or by the dotted name of their first field
     mounted = 0
     for path, nd in spec.walk(schema):
-        if nd["kind"] == "schema" and "[]" not in path and rng.random() < 0.3:
-            nd["style"] = "mounted"
-            mounted += 1
+        if nd["kind"] == "schema" and "[]" not in path and not nd.get("style"):
+            r = rng.random()
+            if r < 0.3:
+                nd["style"] = "mounted"
+                mounted += 1
+            elif r < 0.6:
+                nd["style"] = rng.choice(["auto", "getitem", "dotted"])
     # twins: a second list with the same item type / a second section of the same shape next to the original, so that
     # configuration objects can be moved between two fields of one owner
     twins = 0
@@ -239,6 +268,10 @@ def run(case, ctx, res):
         res.count("sections_nested_in_a_section_of_the_same_name")
     if case["schema"].get("method_like_names"):
         res.count("schemas_with_sections_named_like_config_methods")
+    if case["schema"].get("include_in_ctype"):
+        res.count("schemas_with_an_include_field_inside_a_config_type")
+    if case["schema"].get("deep_dotted"):
+        res.count("schemas_with_sections_created_by_a_deep_dotted_name")
     import warnings
 
     with warnings.catch_warnings():
